@@ -1,6 +1,6 @@
 (* C10 — validated trees never hit unresolved names or arity errors at run time. Property theorems only. *)
 Require Import ZArith NArith Bool List Arith Lia. Import ListNotations.
-Require Import F64 Dec Types Generic Lang Opt IO OptFacts OptFacts4 ValidFacts GenArity GenStruct.
+Require Import F64 Dec Types Generic Lang Opt IO OptFacts OptFacts4 ValidFacts GenArity GenStruct OptTab.
 
 (* accepted by check_variables_and_functions => execute never fails with UndefinedVariable / FunctionNotFound,
    for every tree and every coherent environment *)
@@ -51,3 +51,6 @@ Theorem C10_validator_arms_are_the_codes :
                           (NVariable, GNone, VVariableExistsElseMissingVariable); (NCall, GNone, VCallExistsThenParamsElseNamedError); (NLiteral, GNone, VOk)] /\
   gen_check_expressions_as_modelled = true.
 Proof. split; reflexivity. Qed.
+
+Theorem C10_validator_is_the_table : forall E e, Some (Generic.check E e) = match arm_for gen_check_names_arms e with Some b => check_body E b e | None => None end.
+Proof. exact check_is_the_table. Qed.
